@@ -428,7 +428,7 @@ def run(ctx):
     import time
     tier = SCOPES[ctx.tier]
     ctx.rule = ("TLC enumerates every shape (<=MaxRows rows of length 1..MaxLen) x index expression of the grammar "
-                "(int, slice with bounds in -Bound..Bound or None and steps None/1/2/-1, list of length <=MaxList, "
+                "(int, slice with bounds in -Bound..Bound or None and steps None/1/2/-1/-2, list of length <=MaxList, "
                 "the 8 pairs, ragged boolean masks); each case is replayed on 6 constructed arrays (3 construction "
                 "forms x scalar/2-vector elements); a case is non-trivial when the definition yields at least one "
                 "element; distinct by (shape, index)")
@@ -463,7 +463,7 @@ def run(ctx):
             sampled.append("full products (S,S)/(S,L)/(L,S) thinned to 1/%d (seeded residue)" % sc["SampleN"])
         if sc["Pairwise"] == "TRUE":
             sampled.append("two-slot products (S,S) (S,L) (L,S) (I,S) (L,L) taken as every x representative "
-                           "(9 slices, 8 lists, 3 ints, 5 pairs) in both directions, not every x every")
+                           "(10 slices, 8 lists, 3 ints, 5 pairs) in both directions, not every x every")
         for k in picks:
             name = "emit%d_%d.cfg" % (si, k)
             core.write_cfg(os.path.join(d, name), constants=_consts(sc, total, k, True, ctx.seed),
